@@ -160,6 +160,26 @@ def body(chk, db, cfgname):
     else:
         r1.unknown(site, h.loc(), "fill_stack_: loop form not recognised and the body could not be interpreted (%s)" % fill_err, cfgname)
 
+    # ------------------------------------------------------------------ _autorange_tasks(n): the job ids 0 .. n-1, each once
+    site = "pMPI::_autorange_tasks:all-ids"
+    at_ = [x for x in db.fns.values() if x.name == "pMPI::_autorange_tasks" and x.body is not None and x.body >= 0]
+    if len(at_) == 1:
+        with r1.guard(site, at_[0].loc(), cfgname):
+            from pv.summ import Interp as _I, Thrown as _T
+            badn = None
+            for n_ in (0, 1, 3, 5):
+                try:
+                    out_ = _I(db, {}).call_fn(at_[0], [n_])
+                except _T as e_:
+                    raise AnalysisBroken("_autorange_tasks throws (%s)" % e_.tt)
+                if not isinstance(out_, list) or [int(x) for x in out_] != list(range(n_)):
+                    badn = (n_, out_)
+                    break
+            if badn:
+                r1.bad(site, at_[0].loc(), "_autorange_tasks(%d) yields %s instead of the job ids 0..%d: jobs are dispatched under wrong / repeated ids" % (badn[0], badn[1], badn[0] - 1), cfgname)
+            else:
+                r1.ok(site, at_[0].loc(), "_autorange_tasks(n) == [0, 1, ..., n-1] (evaluated for n = 0, 1, 3, 5)", cfgname)
+
     # ------------------------------------------------------------------ the delegating constructors: build a complete master, swap it in
     # MPIMaster(comm, ntasks, include_boss) and MPIMaster(comm, tasks, include_boss) initialise Comm only, construct a fully
     # initialised temporary and swap() it into *this.  A member that swap() leaves out stays uninitialised in every master that
